@@ -105,8 +105,24 @@ func probeVecRefs(c *Ctx, s *ring.SubRing, N int) {
 	}
 	for _, vr := range vecRefs {
 		op := byName[vr.name]
-		p1 := patVec(r, c.pat(), N, q)
-		p2 := patVec(r, c.pat(), N, q)
+		// documented input ranges: reduced by default; lazy where the operation accepts it
+		b1, b2 := q, q
+		if r.Intn(2) == 0 {
+			switch vr.name {
+			case "SubThenMulScalarMontgomeryTwoModulus":
+				b2 = 2 * q // p2 in [0, 2q-1]: the kernel adds 2q before subtracting
+			case "AddScalarLazyThenNegTwoModulusLazy":
+				b1 = 2 * q
+			case "Reduce", "ReduceLazy", "MForm", "MFormLazy":
+				b1 = ^uint64(0)
+			case "MulCoeffsBarrett", "MulCoeffsBarrettLazy":
+				b1, b2 = ^uint64(0), ^uint64(0)
+			case "MulCoeffsMontgomery", "MulCoeffsMontgomeryLazy", "MulScalarMontgomery", "MulScalarMontgomeryLazy", "IMForm":
+				b1 = ^uint64(0) // x*y < q*2^64 holds for any x when y < q
+			}
+		}
+		p1 := patVec(r, c.pat(), N, b1)
+		p2 := patVec(r, c.pat(), N, b2)
 		p3 := patVec(r, c.pat(), N, q)
 		s0, s1 := r.Below(q), r.Below(q)
 		out := append([]uint64(nil), p3...)
